@@ -177,6 +177,12 @@ def _value_vars(ctx, r):
     for nf in chk.nested.values():
         if nf.params:
             out.append((nf, {nf.params[0]}, set()))
+    # the function that opens a binding context receives the bound arguments (values!) and keeps a copy of them
+    # for `{name}` substitution: all of them, whatever they are (a tracer is an argument like any other)
+    push = r.push
+    own = [p_ for p_ in push.params if p_ not in ("self", "cls")]
+    if own:
+        out.append((push, set(), {own[0]}))
     return out
 
 
@@ -237,9 +243,19 @@ def check_value_variables(ctx, r):
                     continue  # a dict of bound arguments / a list of leaves: indexing the container
                 bad = "indexed"
             elif isinstance(p, ast.Attribute) and p.value is n:
-                if is_container and p.attr in ("arguments", "apply_defaults", "args", "kwargs", "signature"):
+                if is_container and p.attr in ("arguments", "apply_defaults", "args", "kwargs", "signature", "copy"):
                     continue
-                bad = f"its attribute `.{p.attr}` is read"
+                if is_container and p.attr in ("items", "values", "keys"):
+                    # a copy spelled as a comprehension is fine; one that filters / branches on the values is not
+                    comp = par.get(id(par.get(id(p))))  # Attribute -> Call -> comprehension | For
+                    if isinstance(comp, ast.comprehension):
+                        if not comp.ifs:
+                            continue
+                        bad = f"filtered by value (`{short(comp.ifs[0], 50)}`): which arguments `{{name}}` axes can refer to then depends on what the values are"
+                    else:
+                        raise AnalysisError(f"C17.2: `{short(p, 40)}` in {f.qualname}: what is done with the individual argument values is not interpreted")
+                else:
+                    bad = f"its attribute `.{p.attr}` is read"
             elif isinstance(p, (ast.BinOp, ast.UnaryOp, ast.AugAssign)):
                 bad = "used in arithmetic"
             else:
